@@ -92,9 +92,115 @@ let wire_op (t : string list) : string =
   | op :: _ -> failwith ("unknown wire op " ^ op)
   | [] -> failwith "empty op"
 
+(* ---------- stream lowpan (two interfaces) ---------- *)
+let ll_bytes (l : iphc_ll option) : z list =
+  match l with Some (LlShort a) -> a | Some (LlExtended a) -> a | _ -> []
+
+let split_refs (s : string) : z list list =
+  if s = "-" then [] else List.map bytes_of_hex (String.split_on_char ',' s)
+
+(* same permutation as harness `schedule` *)
+let schedule (spec : string) (n : int) : int list =
+  let v = Array.init n (fun i -> i) in
+  let t = Array.of_list (String.split_on_char ':' spec) in
+  let k i = if i < Array.length t then (try int_of_string t.(i) with _ -> 0) else 0 in
+  if n <= 1 then Array.to_list v else begin
+    let l = Array.to_list v in
+    match t.(0) with
+    | "rev" -> List.rev l
+    | "rot" -> let r = k 1 mod n in List.init n (fun i -> (i + r) mod n)
+    | "dup" ->
+        let j = k 1 mod n in
+        let pos = (k 1 / 7) mod (n + 1) in
+        let rec ins i = function
+          | rest when i = pos -> j :: rest
+          | x :: rest -> x :: ins (i + 1) rest
+          | [] -> [j] in
+        ins 0 l
+    | "drop" -> let j = k 1 mod n in List.filter (fun x -> x <> j) l
+    | "swap" ->
+        let a = k 1 mod n and b = k 2 mod n in
+        List.map (fun x -> if x = a then b else if x = b then a else x) l
+    | _ -> l
+  end
+
+type node = { mutable tag : int; mutable slots : lpf_slot list; ll : iphc_ll option }
+
+let e2e_case (cfg : (string * string) list) (ops : string list) : unit =
+  let lla = ll_parse (cfg_get cfg "lla" "-") and llb = ll_parse (cfg_get cfg "llb" "-") in
+  let dst = cfg_get cfg "dst" "ll" in
+  let mcast = String.length dst > 2 && String.sub dst 0 2 = "m:" in
+  let bcast = Some (LlShort [zi 255; zi 255]) in
+  let a = { tag = 0; slots = lpf_slots_new; ll = lla } and b = { tag = 0; slots = lpf_slots_new; ll = llb } in
+  let now = ref (if mcast then 0 else 10) in
+  let timeout = 60000 in
+  (* one datagram from [snd] to [rcv]: print frames, deliver per schedule, print deliveries *)
+  let send (dir : string) (snd : node) (rcv : node) (ll_dst : iphc_ll option) (refs : z list list) (sched : string) =
+    let all = ref [] in
+    let ndg = ref 0 in
+    List.iter (fun r ->
+      match lp_dgram_of_bytes r with
+      | Ok d ->
+        (match lp_dispatch d (ll_bytes snd.ll) (ll_bytes ll_dst) snd.ll ll_dst (zi snd.tag) (zi 0) with
+         | Ok [] -> ()   (* dropped: does not fit the fragmentation buffer *)
+         | Ok frames ->
+           incr ndg;
+           Printf.printf "dg %s n=%d\n" dir (List.length frames);
+           let ieee = lpf_ieee_len (ll_bytes ll_dst) (ll_bytes snd.ll) in
+           let fragmented = ref false in
+           let pls = List.map (fun f ->
+             match f.fr_hdr with
+             | None ->
+                 Printf.printf "f %s plain %s\n" (sz ieee) (hex_of_bytes f.fr_payload); f.fr_payload
+             | Some h ->
+                 fragmented := true;
+                 (match h with
+                  | SfFirst (s, t) ->
+                      Printf.printf "f %s first %s %s %s\n" (sz ieee) (sz s) (sz t) (hex_of_bytes f.fr_payload)
+                  | SfNext (s, t, o) ->
+                      Printf.printf "f %s next %s %s %s %s\n" (sz ieee) (sz s) (sz t) (sz o) (hex_of_bytes f.fr_payload));
+                 (match sixfrag_bytes_of h with Ok hb -> hb @ f.fr_payload | _ -> failwith "frag hdr")) frames in
+           if !fragmented then snd.tag <- (snd.tag + 1) land 0xffff;
+           all := !all @ [pls]
+         | Err _ -> Printf.printf "dg %s MODEL-ERR\n" dir
+         | Panic -> Printf.printf "dg %s MODEL-PANIC\n" dir)
+      | _ -> Printf.printf "dg %s BAD-REF\n" dir) refs;
+    if !ndg = 0 then Printf.printf "dg %s n=0\n" dir;
+    (* delivery *)
+    rcv.slots <- lpf_remove_expired (zi !now) rcv.slots;
+    let got = ref 0 in
+    List.iter (fun pls ->
+      let arr = Array.of_list pls in
+      List.iter (fun j ->
+        match lp_process_sixlowpan [] (zi !now) (zi timeout) (ll_bytes snd.ll) (ll_bytes ll_dst) snd.ll ll_dst arr.(j) rcv.slots with
+        | Ok (ss, d) ->
+            rcv.slots <- ss;
+            (match d with Some x -> incr got; Printf.printf "rx %s %s\n" dir (hex_of_bytes x) | None -> ())
+        | Err _ -> ()
+        | Panic -> Printf.printf "rx %s MODEL-PANIC\n" dir) (schedule sched (Array.length arr))) !all;
+    if !got = 0 then Printf.printf "rx %s -\n" dir;
+    !got in
+  List.iter (fun op ->
+    let t = words op in
+    match t with
+    | "wait" :: _ ->
+        now := !now + int_of_string (kv t "ms");
+        a.slots <- lpf_remove_expired (zi !now) a.slots;
+        b.slots <- lpf_remove_expired (zi !now) b.slots
+    | ("udp" | "burst" | "echo") :: _ ->
+        let sched = if List.hd t = "burst" then "io" else kv t "sched" in
+        let got = send "ab" a b (if mcast then bcast else llb) (split_refs (kv t "ref")) sched in
+        let rr = split_refs (kv t "rref") in
+        (* the receiver only answers what it received *)
+        if rr <> [] && got > 0 then ignore (send "ba" b a lla rr "io");
+        now := !now + 1
+    | _ -> failwith ("unknown e2e op " ^ op)) ops
+
 let () =
   iter_cases (fun id cfg ops ->
     Printf.printf "case %s\n" id;
     match cfg_get cfg "s" "wire" with
     | "wire" -> List.iter (fun op -> Printf.printf "r %s\n" (wire_op (words op))) ops
+    | "e2e" -> e2e_case cfg ops
+    | "inject" -> ()
     | s -> failwith ("unknown stream " ^ s))
